@@ -122,7 +122,14 @@ def main() -> None:
                     if reused:
                         t = trees[sid]
                     else:
-                        t = P.get_fcp_from_string(schemas[sid], E.Logger({})).unwrap()
+                        pr = P.get_fcp_from_string(schemas[sid], E.Logger({}))
+                        if pr.is_err():
+                            # the schema does not even parse in this process: an outcome, to be compared with the baseline
+                            obs.append({"op": oi, "generator": g, "schema": sid, "reused": False, "disk": disk,
+                                        "error": "SchemaRejectedByParser: " + str(pr.err()).split("\n")[0][:120]})
+                            log.append([oi, kind, "parse error"])
+                            continue
+                        t = pr.unwrap()
                         trees[sid] = t
                         from_file.discard(sid)
                     out = work / f"out{oi}"
